@@ -578,6 +578,11 @@ def decide_zero(expr, domain_points=None, symbols_domain=None):
             continue
         except Exception:       # sympy internal failure: try the next form, then classify
             continue
+    # undefined function applications (opaque library results, array elements) become fresh symbols for classification
+    from sympy.core.function import AppliedUndef
+    apps = sorted(expr.atoms(AppliedUndef), key=str)
+    if apps:
+        expr = expr.subs({a: sp.Symbol(f"app{i}_{a.func.__name__}", positive=True) for i, a in enumerate(apps)})
     syms = sorted(expr.free_symbols, key=lambda s: s.name)
     pts = domain_points or default_points(syms, symbols_domain)
     worst = None
